@@ -178,6 +178,17 @@ CLAIMED['C19'] = dict(
     technique='TLA+ axis-bookkeeping model + TLC enumeration; spec->code replay of every case',
     design_ref='3/C19')
 
+CLAIMED['C17'] = dict(
+    text=('TrainLoop.tla in exact rational arithmetic: Average (total, count) and Welford (count, mean, m2 with the chunk-merge formula) as '
+          'state machines over every value stream (len <= 4) and every ordered partition into update calls, checked by TLC against the '
+          'statistics of the whole stream; optimizer wrappers over gradient sequences for sgd / momentum trace / chain with a step schedule '
+          '(dyadic: exact in float32): state after k steps = hand loop, step + 1 per call, only wrt parameters change. Partitions are fed to '
+          'real nnx.metrics.Average / Welford / Accuracy (binary, multi-class) / MultiMetric (with resets), gradient sequences to real '
+          'TrainState.apply_gradients, nnx.Optimizer.update (wrt filters, identity of Variables), nnx.TrainState with real optax; plus '
+          'adam-family and bf16 parameters against the hand-written optax loop and very large batches for the metrics.'),
+    technique='TLA+ exact-rational state machines + TLC enumeration; spec->code replay; differential oracle (optax by hand) for adam-like tx',
+    design_ref='3/C17')
+
 NOT_YET = 'check not built yet in this round (planned, see DESIGN.md section 3); not claimed until its specification is bound to the code'
 ALL = ['C%02d' % i for i in range(1, 21)]
 
